@@ -42,6 +42,20 @@ type c12Scenario struct {
 	Directed bool
 	// DDL: the clients create different tables and use them (c12ddl.go)
 	DDL bool
+	// Wide: the table holds six 600-byte rows (its first page is full), the clients' statements make the
+	// heap grow: two sessions race for the new last page
+	Wide bool
+}
+
+func (sc *c12Scenario) seed() []*Stmt {
+	if !sc.Wide {
+		return c12Seed()
+	}
+	var out []*Stmt
+	for k := 1; k <= 6; k++ {
+		out = append(out, &Stmt{Kind: "insert", Table: "t", Cols: []string{"k", "v"}, Rows: [][]any{{int32(k), bigStr(fmt.Sprintf("s%d", k), 600)}}})
+	}
+	return out
 }
 
 func c12Seed() []*Stmt {
@@ -65,6 +79,15 @@ func c12Scenarios(thorough bool) []*c12Scenario {
 		{Name: "update;read||update", Clients: [][]*Stmt{{up("u1", 1, 2), rd(1, 4)}, {up("u2", 2, 3)}}},
 		// a statement that fails (unknown table) next to good ones: each caller gets the answer to ITS statement
 		{Name: "ddl/create(ta);insert;read||create(tb);insert;read", DDL: true},
+		// the heap grows: both inserts find the last page full
+		{Name: "grow/wide-insert||wide-insert", Wide: true, Clients: [][]*Stmt{
+			{{Kind: "insert", Table: "t", Cols: []string{"k", "v"}, Rows: [][]any{{k(11), bigStr("A", 600)}}}},
+			{{Kind: "insert", Table: "t", Cols: []string{"k", "v"}, Rows: [][]any{{k(12), bigStr("B", 600)}}}}}},
+		// a relocating update (the row moves to a new page) next to an insert and a reader of the moved row
+		{Name: "grow/relocating-update||wide-insert||read", Wide: true, Clients: [][]*Stmt{
+			{{Kind: "update", Table: "t", Set: []SetItem{{"v", bigStr("U", 1300)}}, Where: Leaf{"k", "=", k(2)}}},
+			{{Kind: "insert", Table: "t", Cols: []string{"k", "v"}, Rows: [][]any{{k(12), bigStr("B", 600)}}}},
+			{rd(2, 2)}}},
 		{Name: "unknown-table||update||read", Clients: [][]*Stmt{{{Kind: "select", Table: "nosuch", Cols: []string{"k"}, Where: Leaf{"k", "=", k(1)}}}, {up("u1", 1, 2)}, {rd(1, 2)}}},
 	}
 	// request-channel flood: capacity+2 clients with one cheap read each
@@ -141,7 +164,7 @@ func (sc *c12Scenario) build(bound int) *core.Scenario {
 			}
 			td := sqlTable()
 			db.MustAuto(td.CreateSQL())
-			for _, s := range c12Seed() {
+			for _, s := range sc.seed() {
 				db.MustAuto(s.SQL())
 			}
 			clock := 0
@@ -216,7 +239,7 @@ func (sc *c12Scenario) build(bound int) *core.Scenario {
 				out := strings.Join(outcome, " ") + " => " + strings.ReplaceAll(final, "\n", "/")
 				// strip the logical times from the outcome label (they vary with the schedule)
 				label := c12Label(calls) + " => " + strings.ReplaceAll(final, "\n", "/")
-				if !c12Linearizable(calls, final) {
+				if !c12Linearizable(sc.seed(), calls, final) {
 					return mk("not-linearizable", "results and final table are not those of any serial order of the calls that respects real time:\n  "+out), label
 				}
 				return nil, label
@@ -309,7 +332,7 @@ func ifRows(res [][]interface{}) Rows {
 
 // c12Linearizable: a total order of all calls that keeps program order, keeps real-time order
 // (ret(X) < inv(Y) => X before Y), reproduces every read and yields the final table.
-func c12Linearizable(callsAll [][]*c12Call, final string) bool {
+func c12Linearizable(seed []*Stmt, callsAll [][]*c12Call, final string) bool {
 	// calls on the unknown table are answered with an error and take no part in the order
 	var calls [][]*c12Call
 	for _, cl := range callsAll {
@@ -367,7 +390,7 @@ func c12Linearizable(callsAll [][]*c12Call, final string) bool {
 	}
 	m := NewModel()
 	m.Create(sqlTable())
-	for _, s := range c12Seed() {
+	for _, s := range seed {
 		m.Apply(0, s)
 	}
 	return rec(m)
@@ -400,7 +423,7 @@ func init() {
 			if tier == "thorough" {
 				return 30 * time.Minute
 			}
-			return 170 * time.Second
+			return 300 * time.Second
 		},
 		Assume: []string{
 			"the `go` statements and channel operations of lib/samehada/{request_manager,samehada}.go are rewritten (go/ast, at check time, from the current tree) to scheduler calls with the same semantics: unbuffered channels rendezvous, the request channel keeps its capacity of 100",
